@@ -104,6 +104,27 @@ func genBitmaps(g *Gen, n int, maxWords int, singleWords int, emit func(ws []uin
 			emit(ws2)
 		}
 	}
+	// long bitmaps of one constant pattern (all-ones, alternating, single bits ...) and of long runs: block-wise
+	// or unrolled index code depends on 4/8/16-word alignment and on counts crossing 256, 1024, 4096
+	for _, nw := range []int{12, 16, 17, 33, 64, 70} {
+		for p := 1; p < 8; p += 1 + nw/33 {
+			ws := make([]uint64, nw)
+			for i := range ws {
+				ws[i] = wordPats[p](r)
+			}
+			emit(ws)
+		}
+		ws := make([]uint64, nw) // a run of all-ones words starting at a random word, the rest sparse
+		st := r.Intn(nw / 2)
+		for i := range ws {
+			if i >= st && i < st+4+r.Intn(nw/2) {
+				ws[i] = ^uint64(0)
+			} else if r.Intn(3) == 0 {
+				ws[i] = 1 << uint(r.Intn(64))
+			}
+		}
+		emit(ws)
+	}
 	for i := 0; i < n; i++ {
 		nw := 1 + r.Intn(maxWords)
 		if r.Intn(4) == 0 {
@@ -326,9 +347,13 @@ func genC13(g *Gen) {
 				}
 			}
 		}
-		if len(ranges) > 450 {
+		maxRanges := 450
+		if len(ones) > 400 {
+			maxRanges = 40 // dense long bitmaps: the definition is evaluated per range over all 1-bits
+		}
+		if len(ranges) > maxRanges {
 			r.Shuffle(len(ranges), func(a, b int) { ranges[a], ranges[b] = ranges[b], ranges[a] })
-			ranges = ranges[:450]
+			ranges = ranges[:maxRanges]
 		}
 		g.Case("scan", J{"bm": bmJ(ws), "ranges": ranges})
 	}
